@@ -1385,13 +1385,8 @@ def m_rev(c):
     return None
 
 
-@model(r"^std::iter::Iterator::(skip|step_by|zip|map|filter|chain|peekable|flatten|flat_map|copied|cloned|take_while|skip_while|filter_map|inspect|fuse|cycle|scan|map_while)$")
+@model(r"^std::iter::Iterator::(skip|zip|map|filter|chain|peekable|flatten|flat_map|copied|cloned|take_while|skip_while|filter_map|inspect|fuse|cycle|scan|map_while)$")
 def m_adaptor(c):
-    if c.path.endswith("step_by"):
-        n = c.num(1)
-        i = c.st.val_iv(n)
-        ok = i[0] is not None and i[0] >= 1
-        c.oblige("S7", ok, "D6" if ok else None, "step_by(%s) panics when the step is zero" % c.an.vs(n))
     v = c.args[0][0]
     if v[0] == "iter" and v[1] == "slice" and c.path.endswith(("copied", "cloned", "peekable", "fuse", "inspect")):
         return v
@@ -1495,6 +1490,55 @@ def _range_next(c, fwd, incl, counter=False):
         c.an.shrink_unknown(st, E) if E in st.iv else None
         st.set_iv(E, si[0], ei[1])
         st.sym[d] = ("opt", "cond", ("conj", facts, []), pv)
+    return "stored"
+
+
+@model(r"^std::iter::Iterator::step_by$")
+def m_step_by(c):
+    """StepBy { iter, step, .. }: the range's facts live on under the field `iter`"""
+    n = c.num(1)
+    i = c.st.val_iv(n)
+    ok = i[0] is not None and i[0] >= 1
+    c.oblige("S7", ok, "D6" if ok else None, "step_by(%s) panics when the step is zero" % c.an.vs(n))
+    d = c.dest_place()
+    op = c.t["args"][0]
+    pj = op.get("copy") or op.get("move")
+    if d is None or pj is None:
+        return ("iter", "other")
+    src = c.an.canon(c.st, pj)
+    if src is None:
+        return ("iter", "other")
+    c.st.kill(d, whole_local=not d[1])
+    c.st.copy_facts((src[0], src[1]), (d[0], d[1] + ("iter",)))
+    return "stored"
+
+
+@model(r"^<std::iter::StepBy<I> as std::iter::Iterator>::next$")
+def m_stepby_next(c):
+    """yields a value between the range's (old) start and its end; the cursor only grows"""
+    st = c.st
+    pl = c.place_of(0)
+    d = c.dest_place()
+    if pl is None or d is None:
+        return None
+    pl = (pl[0], pl[1] + ("iter",))
+    S = ("v", pl[0], pl[1] + ("start",))
+    sv = st.sym.get((pl[0], pl[1] + ("start",)))
+    ev = st.sym.get((pl[0], pl[1] + ("end",)))
+    if (sv is None and S not in st.iv) or (ev is None and ("v", pl[0], pl[1] + ("end",)) not in st.iv):
+        return None
+    s_val = sv if sv is not None and sv[0] == "n" else ("n", S, 0)
+    e_val = ev if ev is not None and ev[0] == "n" else ("n", ("v", pl[0], pl[1] + ("end",)), 0)
+    si = st.val_iv(s_val)
+    st.kill(d, whole_local=not d[1])
+    P = ("v", d[0], d[1] + (("dc", "Some"), "0"))
+    pv = ("n", P, 0)
+    facts = [(pv, e_val, -1)]
+    if si[0] is not None:
+        facts.append((("n", None, si[0]), pv, 0))
+    st.kill((pl[0], pl[1] + ("start",)))
+    st.set_iv(S, si[0], None)
+    st.sym[d] = ("opt", "cond", ("conj", facts, []), pv)
     return "stored"
 
 
